@@ -165,7 +165,7 @@ class Run:
             self.undecided.append(f'{o.name[:160]}: {r["status"]} ({r.get("detail")}) stages={r.get("trace")}; replay file {path}')
 
     def _violation(self, what, path, rec, detail, reproduced):
-        if any(v['what'] == what for v in self.violations):
+        if any(v['what'] == what or v['replay'] == path for v in self.violations):
             return
         for k in self.known:
             if k.get('status') == 'known' and re.search(k['match'], what + ' ' + str(detail)):
